@@ -55,7 +55,16 @@ where
     fn poll_next(mut self: Pin<&mut Self>, cx: &mut Context) -> Poll<Option<Self::Item>> {
         while self.as_mut().in_flight_requests() >= *self.as_mut().project().max_in_flight_requests
         {
-            ready!(self.as_mut().project().inner.poll_ready(cx)?);
+            if self.as_mut().project().inner.poll_ready(cx)?.is_pending() {
+                // Polling the channel for readiness also retires expired and abandoned
+                // requests, so there may be room again even though the sink is not ready.
+                if self.as_mut().in_flight_requests()
+                    < *self.as_mut().project().max_in_flight_requests
+                {
+                    break;
+                }
+                return Poll::Pending;
+            }
 
             match ready!(self.as_mut().project().inner.poll_next(cx)?) {
                 Some(r) => {
